@@ -327,7 +327,7 @@ def build_stream(R=None):
                len=s_len, ExitStack=ExitStack)
     RFB = rebind_class(base.Filterbank, sub, name="RFilterbank")
     rsub = dict(np=NPfile, allocate_buffer=st["allocate_buffer"], track=passthrough_track, memoryview=MV, bytearray=SymBuf,
-                int=s_int, min=s_min, max=s_max, FilterbankBlock=RecBlock, FileReader=st["FileReader"])
+                int=s_int, min=s_min, max=s_max, len=s_len, FilterbankBlock=RecBlock, FileReader=st["FileReader"])
     RF = rebind_class(readers.FilReader, rsub, bases=(RFB,), name="RFilReader")
     StreamHeader.prep_outfile = rebind(header.Header.prep_outfile, FileWriter=st["FileWriter"], sigproc=SigprocStub)
     # band geometry: the real Header properties (their bytecode runs on the stand-in's fch1 / foff / nchans)
